@@ -11,8 +11,9 @@ and — with the guarded hook — flags, `m_route_dist` and the static-graph fla
                did not change; positive form `touched_or_blocked_edge_flags`), `skip_sound_leg` (… hence, for strictly convex counter-clockwise shapes in
                general position, the edge does not enter the shape), `covered_after_routing`,
                `covered_preserved` (the invariant "every leg of the route is registered"),
-               `skip_sound_route_valid` (the old route is valid for the new scene), `new_scene_obstacle_cases`
-               (what the new scene consists of, from Model/ActionQueue.runPasses)
+               `skip_sound_route_valid(_rect)` (the old route is valid for the new scene), `new_scene_obstacle_cases`
+               (what the new scene consists of, from Model/ActionQueue.runPasses), `skip_sound_scene` (assembled:
+               `RouteValid` for the shapes of `runPasses sc acts`), `skip_unsound_through_corners_witness`
 * flags stick: `flag_persists` (never routed / no path found / end changed earlier), `endpoint_change_flags`,
                `orthogonal_always_rerouted`
 * contains:    `contains_incremental_eq_scratch` (Router::contains maintained by the three loops = its from-scratch
@@ -32,6 +33,7 @@ import AdaptaVerif.Lemmas.RerouteScene
 import AdaptaVerif.Lemmas.RerouteContains
 import AdaptaVerif.Lemmas.Sqrt
 import AdaptaVerif.Props.C06
+import AdaptaVerif.Props.C03
 import Mathlib.Data.Rat.Cast.Order
 namespace AdaptaVerif.Props.C06Reroute
 open AdaptaVerif.Model.Geometry (Pt)
@@ -284,6 +286,96 @@ theorem new_scene_obstacle_cases (sc : AdaptaVerif.Model.ActionQueue.Scene) (act
     · exact ⟨a, ha, Or.inl hkk, hid⟩
     · exact absurd rfl (runPasses_removed sc acts o.id ⟨a, ha, hkk, hid⟩ o ho)
     · exact absurd hkk hk
+
+/-- the shapes of a scene of Model/ActionQueue as polygons: active, non-junction obstacles (shapeBufferDistance 0:
+    the routing polygon is the polygon) -/
+def shapePolys (sc : AdaptaVerif.Model.ActionQueue.Scene) : List Poly :=
+  (sc.obsts.filter fun o => o.active && !o.isJ).map fun o => o.geom.map fun p => (⟨p.x, p.y⟩ : Pt)
+
+/-- routing polygon by obstacle id, read off a scene -/
+def rpOf (sc : AdaptaVerif.Model.ActionQueue.Scene) : Polys := fun id =>
+  match AdaptaVerif.Model.ActionQueue.findObst sc id with
+  | some o => o.geom.map fun p => (⟨p.x, p.y⟩ : Pt)
+  | none => []
+
+open AdaptaVerif.Lemmas.Route (rectPoly) in
+open AdaptaVerif.Spec.Route (RouteValid StrictlyInside) in
+/-- **skip_sound_scene** (assembled on the scene model of Model/ActionQueue; `acts` = the sorted queue, so that
+    `runPasses sc acts` is the scene after `processActions`).  A connector that the transaction does not flag,
+    every leg of whose route is registered, and whose route was valid for the shapes of the old scene `sc`, has a
+    valid route for the shapes of the new scene — obstacle ids unique, shapes rectangles, route in general
+    position w.r.t. the new shapes. -/
+theorem skip_sound_scene (cid : Nat) (route : List Pt) (lt3 : Lt3) (rpOld : Polys) (acts : List Action)
+    (rst : RState) (sc : AdaptaVerif.Model.ActionQueue.Scene)
+    (hex : ∃ c ∈ rst.conns, c.id = cid) (hcov : Covered rst.regs cid route)
+    (hquiet : ∀ c ∈ (flagTxn lt3 rpOld (rpOf (AdaptaVerif.Model.ActionQueue.runPasses sc acts)) acts rst).conns,
+      c.id = cid → c.needsReroute = false)
+    (huniq : ∀ o ∈ (AdaptaVerif.Model.ActionQueue.runPasses sc acts).obsts,
+      ∀ o' ∈ (AdaptaVerif.Model.ActionQueue.runPasses sc acts).obsts, o.id = o'.id → o = o')
+    (src dst : Pt) (hold : RouteValid (shapePolys sc) [] src dst route)
+    (hrect : ∀ s ∈ shapePolys (AdaptaVerif.Model.ActionQueue.runPasses sc acts),
+      ∃ x0 y0 x1 y1 : Rat, x0 < x1 ∧ y0 < y1 ∧ s = rectPoly x0 y0 x1 y1)
+    (hgen : ∀ l ∈ legs route, ∀ s ∈ shapePolys (AdaptaVerif.Model.ActionQueue.runPasses sc acts),
+      ¬ StrictlyInside s l.1 ∧ ¬ StrictlyInside s l.2 ∧ ∀ v ∈ s, ∀ t : Rat, 0 < t → t < 1 → lerp l.1 l.2 t ≠ v) :
+    RouteValid (shapePolys (AdaptaVerif.Model.ActionQueue.runPasses sc acts)) [] src dst route := by
+  refine skip_sound_route_valid_rect cid route lt3 rpOld _ acts rst hex hcov hquiet (shapePolys sc) _ src dst hold
+    ?_ hrect hgen
+  intro s hs
+  unfold shapePolys at hs
+  obtain ⟨o, ho, rfl⟩ := List.mem_map.mp hs
+  obtain ⟨homem, hoact⟩ := List.mem_filter.mp ho
+  rcases new_scene_obstacle_cases sc acts o homem with ⟨hin, _⟩ | ⟨a, ha, hk, hid⟩
+  · left
+    unfold shapePolys
+    exact List.mem_map.mpr ⟨o, List.mem_filter.mpr ⟨hin, hoact⟩, rfl⟩
+  · right
+    refine ⟨a, ha, hk, ?_⟩
+    unfold rpOf AdaptaVerif.Model.ActionQueue.findObst
+    have hsome : ((AdaptaVerif.Model.ActionQueue.runPasses sc acts).obsts.find? (·.id == a.id)).isSome = true := by
+      rw [List.find?_isSome]
+      exact ⟨o, homem, by simp [hid]⟩
+    obtain ⟨o', ho'⟩ := Option.isSome_iff_exists.mp hsome
+    rw [ho']
+    have hm := List.mem_of_find?_eq_some ho'
+    have hp := List.find?_some ho'
+    simp only [beq_iff_eq] at hp
+    have : o' = o := huniq o' hm o homem (by rw [hp, hid])
+    rw [this]
+
+-- non-vacuity of `skip_sound_scene`: a square is moved far away from a straight two-point route
+namespace NV
+def sc : AdaptaVerif.Model.ActionQueue.Scene := { obsts := [{ id := 1, isJ := false, geom := [⟨12, 10⟩, ⟨12, 12⟩, ⟨10, 12⟩, ⟨10, 10⟩], active := true }] }
+def acts : List Action := [{ kind := .move, id := 1, geom := [⟨22, 20⟩, ⟨22, 22⟩, ⟨20, 22⟩, ⟨20, 20⟩] }]
+def route : List Pt := [⟨0, 0⟩, ⟨5, 0⟩]
+def rst : RState := routedOne 3 [(⟨0, 0⟩, VKey.ofEnd 3 .src), (⟨5, 0⟩, VKey.ofEnd 3 .tar)] (addConn true 3 {})
+end NV
+
+open NV in
+open AdaptaVerif.Lemmas.Route (rectPoly strictlyInside_rect_iff) in
+open AdaptaVerif.Spec.Route (RouteValid StrictlyInside) in
+example : RouteValid (shapePolys (AdaptaVerif.Model.ActionQueue.runPasses sc acts)) [] ⟨0, 0⟩ ⟨5, 0⟩ route := by
+  refine skip_sound_scene 3 route (estLess 30 0) (rpOf sc) acts rst sc (by decide) ?_ (by decide +kernel) (by decide +kernel)
+    ⟨0, 0⟩ ⟨5, 0⟩ (AdaptaVerif.Props.C03.routeValid_sound _ _ _ _ _ (by decide +kernel)) ?_ ?_
+  · exact covered_after_routing 3 _ (addConn true 3 {}) (by decide)
+  · intro s hs
+    have : s = rectPoly 20 20 22 22 := by
+      have h : shapePolys (AdaptaVerif.Model.ActionQueue.runPasses sc acts) = [rectPoly 20 20 22 22] := by decide +kernel
+      rw [h] at hs; simpa using hs
+    exact ⟨20, 20, 22, 22, by norm_num, by norm_num, this⟩
+  · intro l hl s hs
+    have hsr : s = rectPoly 20 20 22 22 := by
+      have h : shapePolys (AdaptaVerif.Model.ActionQueue.runPasses sc acts) = [rectPoly 20 20 22 22] := by decide +kernel
+      rw [h] at hs; simpa using hs
+    have hl' : l = (⟨0, 0⟩, ⟨5, 0⟩) := by simpa [route, legs] using hl
+    subst hsr; subst hl'
+    refine ⟨?_, ?_, ?_⟩
+    · rw [strictlyInside_rect_iff 20 20 22 22 (by norm_num) (by norm_num)]; norm_num
+    · rw [strictlyInside_rect_iff 20 20 22 22 (by norm_num) (by norm_num)]; norm_num
+    · intro v hv t _ _ h
+      have hy : (lerp (⟨0, 0⟩ : Pt) ⟨5, 0⟩ t).y = v.y := congrArg Pt.y h
+      simp only [lerp, sub_self, mul_zero, add_zero] at hy
+      simp only [rectPoly, List.mem_cons, List.not_mem_nil, or_false] at hv
+      rcases hv with rfl | rfl | rfl | rfl <;> simp at hy
 
 -- non-vacuity: the closed scene of `Witness` below satisfies `Covered` and the "not flagged" hypothesis
 example : Covered Witness.rst0.regs 3 Witness.oldRoute :=
